@@ -934,17 +934,25 @@ where
                         ))
                     }
                 } else if ident.ctxt.has_mark(self.unresolved_mark) {
-                    if ident.sym == "Array" {
-                        type_params
+                    match &*ident.sym {
+                        "Array" => type_params
                             .as_ref()
                             .and_then(|params| params.params.first())
-                            .map(|ty| (**ty).clone())
-                    } else {
-                        None
+                            .map(|ty| (**ty).clone()),
+                        "Partial" | "Required" | "Pick" | "Omit" => {
+                            self.resolve_indexed_access_through_members(obj, index)
+                        }
+                        _ => None,
                     }
                 } else {
                     None
                 }
+            }
+            TsType::TsUnionOrIntersectionType(TsUnionOrIntersectionType::TsIntersectionType(
+                ..,
+            )) => self.resolve_indexed_access_through_members(obj, index),
+            TsType::TsParenthesizedType(TsParenthesizedType { type_ann, .. }) => {
+                self.resolve_indexed_access(type_ann, index)
             }
             TsType::TsTypeLit(TsTypeLit { members, .. }) => {
                 let mut properties = match index {
@@ -1101,6 +1109,40 @@ where
             },
             _ => None,
         }
+    }
+
+    /// Indexed access into a composed object type (an intersection, `Partial<T>`, `Pick<T, K>`, ...):
+    /// into the type literal made of its resolved members.
+    fn resolve_indexed_access_through_members(
+        &self,
+        obj: &TsType,
+        index: &TsType,
+    ) -> Option<TsType> {
+        let mut members = vec![];
+        self.resolve_type_elements(obj, &mut members);
+        self.resolve_indexed_access(
+            &TsType::TsTypeLit(TsTypeLit {
+                span: DUMMY_SP,
+                members: members
+                    .into_iter()
+                    .map(|member| match member {
+                        RefinedTsTypeElement::Property(property) => {
+                            TsTypeElement::TsPropertySignature(property)
+                        }
+                        RefinedTsTypeElement::GetterSignature(getter) => {
+                            TsTypeElement::TsGetterSignature(getter)
+                        }
+                        RefinedTsTypeElement::MethodSignature(method) => {
+                            TsTypeElement::TsMethodSignature(method)
+                        }
+                        RefinedTsTypeElement::CallSignature(call) => {
+                            TsTypeElement::TsCallSignatureDecl(call)
+                        }
+                    })
+                    .collect(),
+            }),
+            index,
+        )
     }
 
     fn infer_runtime_type(&self, ty: &TsType) -> IndexSet<Option<Atom>> {
